@@ -63,6 +63,12 @@ def probe(where, texts=()):
         t = mido.MetaMessage.from_bytes([0xFF, 1, 1, 0xE9]).text
         if t != 'é':
             out.append(fail('charset-leak', f'after {where}: from_bytes decodes E9 as {t!r}', where=where))
+        # latin1 is byte-transparent: payloads that look like another encoding's signature are still latin1 text
+        for pay in ([0xEF, 0xBB, 0xBF, 0x61], [0xFE, 0xFF, 0, 0x61], [0xFF, 0xFE, 0x61, 0], [0x2B, 0x41, 0x47, 0x45, 0x2D]):
+            t = mido.MetaMessage.from_bytes([0xFF, 5, len(pay)] + pay).text
+            if t != bytes(pay).decode('latin1'):
+                out.append(fail('charset-leak', f'after {where}: default-charset decoding of {pay} gives {t!r}', where=where))
+                break
     except Exception as exc:  # noqa: BLE001
         out.append(fail('charset-leak', f'after {where}: probe raised {exc!r}', where=where))
     return out
@@ -301,7 +307,8 @@ def base_cases(draw):
     for _ in range(draw(st.integers(1, 4))):
         t = draw(st.sampled_from(sorted(TEXT_ATTR)))
         alpha = st.characters(codec=cs, exclude_categories=['Cs'])
-        opts = [st.text(alpha, max_size=8), st.sampled_from(['', 'a', 'abc', 'A b', 'abc\x00', '\x00', 'pad\x00\x00'])]
+        opts = [st.text(alpha, max_size=8), st.sampled_from(['', 'a', 'abc', 'A b', 'abc\x00', '\x00', 'pad\x00\x00', '\xef\xbb\xbfabc', '\xef\xbb\xbf',
+                                                               '\xfe\xff\x00a', '\xff\xfea\x00', '+AGE-', '\x1b$B'])]
         if codecs.lookup(cs).name != 'ascii':
             opts.append(st.text(st.characters(codec=cs, min_codepoint=0x80, exclude_categories=['Cs']), max_size=4))
         text = draw(st.one_of(*opts))
